@@ -147,14 +147,24 @@ by stepping after that on ≥ 2 qubits — an array of a wrong shape. -/
 inductive Form | qobj | tensor | matrix | garbage
 deriving DecidableEq, Repr
 
-structure SimState (Q P : Type) where
-  cbits : Option Ref            -- `self.cbits` (a reference: may alias a caller's list)
+/-- the per-run attributes other than `cbits` -/
+structure Fields (Q P : Type) where
   st : Option Q                 -- `self._state`
   form : Form                   -- its representation (see `Form`)
   prob : P                      -- `self._probability`
   opIndex : Nat                 -- `self._op_index`
   mres : Option (List Int)      -- `self._measure_results`
   mind : Nat                    -- `self._measure_ind`
+
+/-- the simulator object: `self.cbits` is a REFERENCE (it may alias a caller's list) -/
+structure SimState (Q P : Type) where
+  cbits : Option Ref
+  f : Fields Q P
+
+/-- the same with the classical bits by VALUE: what one step reads and writes -/
+structure Core (Q P : Type) where
+  bits : Option (List Int)
+  f : Fields Q P
 
 /-- events of one run (ghost: not an attribute of the code; used to compare firing decisions) -/
 inductive Ev
@@ -187,90 +197,76 @@ structure World (Q P : Type) where
 /-- truthiness of a Python list -/
 def truthy (l : List Int) : Bool := !l.isEmpty
 
-/-- `initialize(state, cbits, measure_results)` -/
-def initRun {Q P : Type} [One P] (cfg : Cfg) (c : Circuit) (w : World Q P) (st : Q) (cb : Option Ref)
-    (mr : Option (List Int)) : World Q P :=
-  let fresh : Heap × Option Ref :=
-    if c.ncb > 0 then
-      let (h, r) := w.heap.alloc (List.replicate c.ncb 0)
-      (h, some r)
-    else (w.heap, none)
-  let (heap, cbref) : Heap × Option Ref :=
-    match cb with
-    | some r =>
-      let l := w.heap.get r
-      if truthy l && l.length == c.ncb then
-        if cfg.copyCbits then
-          let (h, r') := w.heap.alloc l
-          (h, some r')
-        else (w.heap, some r)
-      else fresh
-    | none => fresh
-  { w with heap := heap,
-           sim := some { cbits := cbref, st := some st, form := .qobj, prob := 1, opIndex := 0, mres := mr, mind := 0 } }
-
 /-- is `self._measure_results` truthy -/
 def mresTruthy : Option (List Int) → Bool
   | some l => truthy l
   | none => false
 
+/-! ## One step on the attribute values (pure) -/
+
+/-- result of a step: new attribute values, what is left of the random stream, the exception if
+any (attribute writes made before it are kept, as in Python), the ghost events -/
+structure Out (Q P : Type) where
+  core : Core Q P
+  rng : List Int
+  err : Option Err
+  evs : List Ev
+
 /-- the `state` property: `self._state = self._state.reshape(self._state_mat_shape)` unless it is a
 `Qobj` or `None` (with fix C16-2 the reshaped array is only returned) -/
-def getter {Q P : Type} (cfg : Cfg) (s : SimState Q P) : SimState Q P × Option Err :=
-  match s.st with
-  | none => (s, none)
+def getter {Q P : Type} (cfg : Cfg) (f : Fields Q P) : Fields Q P × Option Err :=
+  match f.st with
+  | none => (f, none)
   | some _ =>
-    match s.form with
-    | .qobj => (s, none)
-    | .matrix => (s, none)
-    | .tensor => if cfg.pureGetter then (s, none) else ({ s with form := .matrix }, none)
-    | .garbage => (s, some .value)      -- "cannot reshape array of size … into shape …"
+    match f.form with
+    | .qobj => (f, none)
+    | .matrix => (f, none)
+    | .tensor => if cfg.pureGetter then (f, none) else ({ f with form := .matrix }, none)
+    | .garbage => (f, some .value)      -- "cannot reshape array of size … into shape …"
+
+/-- which outcome `_apply_measurement` takes: the next prescribed result, or the next value of the
+random stream when `_measure_results` is falsy -/
+def pickOutcome {Q P : Type} (f : Fields Q P) (rng : List Int) : Except Err (Int × Fields Q P × List Int) :=
+  if mresTruthy f.mres then
+    match (f.mres.getD [])[f.mind]? with
+    | none => .error .index
+    | some i => .ok (i, { f with mind := f.mind + 1 }, rng)
+  else
+    match rng with
+    | [] => .ok (0, f, [])
+    | i :: rest => .ok (i, f, rest)
 
 /-- `_apply_measurement` in state-vector mode followed by `self._state = state`.
 Attribute writes happen in the code's order, so a failure leaves the same partial update. -/
-def measureSv {Q P : Type} [Mul P] (B : Backend Q P) (cfg : Cfg) (c : Circuit) (w : World Q P) (s0 : SimState Q P)
-    (idx : Nat) (t : Nat) (store : Option Int) : World Q P × Option Err :=
-  match getter cfg s0 with
-  | (s, some e) => ({ w with sim := some s }, some e)
-  | (s, none) =>
-  match s.st with
-  | none => ({ w with sim := some s }, some .attr)          -- `None.shape`
+def measureSv {Q P : Type} [Mul P] (B : Backend Q P) (cfg : Cfg) (c : Circuit) (k0 : Core Q P) (rng : List Int)
+    (idx : Nat) (t : Nat) (store : Option Int) : Out Q P :=
+  match getter cfg k0.f with
+  | (f, some e) => ⟨{ k0 with f := f }, rng, some e, []⟩
+  | (f, none) =>
+  match f.st with
+  | none => ⟨{ k0 with f := f }, rng, some .attr, []⟩           -- `None.shape`
   | some q =>
-    if t ≥ c.nq then ({ w with sim := some s }, some .value) -- "target is not valid"
+    if t ≥ c.nq then ⟨{ k0 with f := f }, rng, some .value, []⟩  -- "target is not valid"
     else
-      -- choose the outcome
-      let pick : Except Err (Int × SimState Q P × List Int) :=
-        if mresTruthy s.mres then
-          match (s.mres.getD [])[s.mind]? with
-          | none => .error .index
-          | some i => .ok (i, { s with mind := s.mind + 1 }, w.rng)
-        else
-          match w.rng with
-          | [] => .ok (0, s, [])
-          | i :: rest => .ok (i, s, rest)
-      match pick with
-      | .error e => ({ w with sim := some s }, some e)
-      | .ok (i, s1, rng1) =>
-        let w1 := { w with rng := rng1 }
+      match pickOutcome f rng with
+      | .error e => ⟨{ k0 with f := f }, rng, some e, []⟩
+      | .ok (i, f1, rng1) =>
         match pyIdx 2 i with
-        | none => ({ w1 with sim := some s1 }, some .index)  -- `probabilities[i]`
+        | none => ⟨{ k0 with f := f1 }, rng1, some .index, []⟩   -- `probabilities[i]`
         | some o =>
-          let (p, q') := B.meas t q o
-          let s2 := { s1 with prob := s1.prob * p }
-          let log' := w1.log ++ [Ev.measured idx i]     -- (ghost) logged when the measurement completes
+          let f2 := { f1 with prob := f1.prob * (B.meas t q o).1 }
+          let f3 := { f2 with st := (B.meas t q o).2, form := .qobj }
           match store with
-          | none => ({ w1 with sim := some { s2 with st := q', form := .qobj }, log := log' }, none)
+          | none => ⟨{ k0 with f := f3 }, rng1, none, [Ev.measured idx i]⟩
           | some sidx =>
-            match s2.cbits with
-            | none => ({ w1 with sim := some s2 }, some .type)   -- `None[...] = i`
-            | some r =>
-              match pySet (w1.heap.get r) sidx i with
-              | none => ({ w1 with sim := some s2 }, some .index)
-              | some l' =>
-                ({ w1 with heap := w1.heap.put r l',
-                           sim := some { s2 with st := q', form := .qobj }, log := log' }, none)
+            match k0.bits with
+            | none => ⟨{ k0 with f := f2 }, rng1, some .type, []⟩   -- `None[...] = i`
+            | some l =>
+              match pySet l sidx i with
+              | none => ⟨{ k0 with f := f2 }, rng1, some .index, []⟩
+              | some l' => ⟨{ bits := some l', f := f3 }, rng1, none, [Ev.measured idx i]⟩
 
-/-- what `_evolve_state_einsum` does to the representation: `none` = the new `Form`, or the exception.
+/-- what `_evolve_state_einsum` does to the representation: the new `Form`, or the exception.
 On a matrix-shaped array of ≥ 2 qubits the index bookkeeping is for the wrong rank. -/
 def einsumForm (nq : Nat) (qubits : List Nat) : Form → Except Err Form
   | .qobj => .ok .tensor
@@ -282,50 +278,88 @@ def einsumForm (nq : Nat) (qubits : List Nat) : Form → Except Err Form
     else .ok .garbage                                                -- silently broadcast
   | .garbage => .ok .garbage
 
+/-- does the gate act: `_check_classical_control_value` if it has classical controls -/
+def fires (g : Gate) (bits : Option (List Int)) : Except Err Bool :=
+  match g.cc with
+  | none => .ok true
+  | some cs => checkCCV cs g.ccv bits
+
+/-- `step()` on the attribute values -/
+def coreStep {Q P : Type} [Mul P] (B : Backend Q P) (cfg : Cfg) (mode : Mode) (c : Circuit)
+    (k : Core Q P) (rng : List Int) : Out Q P :=
+  match c.ops[k.f.opIndex]? with
+  | none => ⟨k, rng, some .index, []⟩
+  | some op =>
+    let idx := k.f.opIndex
+    let k1 : Core Q P := { k with f := { k.f with opIndex := k.f.opIndex + 1 } }
+    match op with
+    | .meas t store =>
+      match mode with
+      | .sv => measureSv B cfg c k1 rng idx t store
+      | .dm =>
+        match k1.f.st with
+        | none => ⟨k1, rng, some .attr, []⟩
+        | some q =>
+          if t ≥ c.nq then ⟨k1, rng, some .value, []⟩
+          else ⟨{ k1 with f := { k1.f with st := some (B.dephase t q) } }, rng, none, [Ev.dephased idx]⟩
+    | .gate g =>
+      match fires g k1.bits with
+      | .error e => ⟨k1, rng, some e, []⟩
+      | .ok false => ⟨k1, rng, none, [Ev.skipped idx]⟩
+      | .ok true =>
+        match k1.f.st with
+        | none => ⟨k1, rng, some .attr, []⟩
+        | some q =>
+          let nf : Except Err Form :=
+            match mode with
+            | .dm => .ok k1.f.form
+            | .sv => einsumForm c.nq g.qubits k1.f.form
+          match nf with
+          | .error e => ⟨k1, rng, some e, []⟩
+          | .ok fm =>
+            ⟨{ k1 with f := { k1.f with st := some (B.gate g.code g.qubits q), form := fm } }, rng, none,
+             [Ev.fired idx]⟩
+
+/-! ## The simulator object in the world: one step reads and writes the list `self.cbits` refers to -/
+
+def toCore {Q P : Type} (h : Heap) (s : SimState Q P) : Core Q P := { bits := s.cbits.map h.get, f := s.f }
+
+/-- store the (possibly modified) bits into the list object -/
+def writeBack (h : Heap) : Option Ref → Option (List Int) → Heap
+  | some r, some l => h.put r l
+  | _, _ => h
+
+/-- lift a result on the attribute values to the world -/
+def applyOut {Q P : Type} (w : World Q P) (ref : Option Ref) (o : Out Q P) : World Q P :=
+  { w with heap := writeBack w.heap ref o.core.bits, sim := some { cbits := ref, f := o.core.f },
+           rng := o.rng, log := w.log ++ o.evs }
+
+/-- `initialize(state, cbits, measure_results)` -/
+def initRun {Q P : Type} [One P] (cfg : Cfg) (c : Circuit) (w : World Q P) (st : Q) (cb : Option Ref)
+    (mr : Option (List Int)) : World Q P :=
+  let fresh : Heap × Option Ref :=
+    if c.ncb > 0 then ((w.heap.alloc (List.replicate c.ncb 0)).1, some (w.heap.alloc (List.replicate c.ncb 0)).2)
+    else (w.heap, none)
+  let hr : Heap × Option Ref :=
+    match cb with
+    | some r =>
+      if truthy (w.heap.get r) && (w.heap.get r).length == c.ncb then
+        if cfg.copyCbits then ((w.heap.alloc (w.heap.get r)).1, some (w.heap.alloc (w.heap.get r)).2)
+        else (w.heap, some r)
+      else fresh
+    | none => fresh
+  { w with heap := hr.1,
+           sim := some { cbits := hr.2,
+                         f := { st := some st, form := .qobj, prob := 1, opIndex := 0, mres := mr, mind := 0 } } }
+
 /-- `step()` -/
 def step {Q P : Type} [Mul P] (B : Backend Q P) (cfg : Cfg) (mode : Mode) (c : Circuit) (w : World Q P) :
     World Q P × Option Err :=
   match w.sim with
-  | none => (w, some .attr)
+  | none => (w, some .attr)      -- no `_op_index` before `initialize`
   | some s =>
-    match c.ops[s.opIndex]? with
-    | none => (w, some .index)
-    | some op =>
-      let idx := s.opIndex
-      let s1 := { s with opIndex := s.opIndex + 1 }
-      let w1 := { w with sim := some s1 }
-      match op with
-      | .meas t store =>
-        match mode with
-        | .sv => measureSv B cfg c w s1 idx t store
-        | .dm =>
-          match s1.st with
-          | none => (w1, some .attr)
-          | some q =>
-            if t ≥ c.nq then (w1, some .value)
-            else ({ w1 with sim := some { s1 with st := some (B.dephase t q) },
-                            log := w1.log ++ [Ev.dephased idx] }, none)
-      | .gate g =>
-        let fire : Except Err Bool :=
-          match g.cc with
-          | none => .ok true
-          | some cs => checkCCV cs g.ccv (s1.cbits.map w.heap.get)
-        match fire with
-        | .error e => (w1, some e)
-        | .ok false => ({ w1 with log := w1.log ++ [Ev.skipped idx] }, none)
-        | .ok true =>
-          match s1.st with
-          | none => (w1, some .attr)
-          | some q =>
-            let nf : Except Err Form :=
-              match mode with
-              | .dm => .ok s1.form
-              | .sv => einsumForm c.nq g.qubits s1.form
-            match nf with
-            | .error e => (w1, some e)
-            | .ok f =>
-              ({ w1 with sim := some { s1 with st := some (B.gate g.code g.qubits q), form := f },
-                         log := w1.log ++ [Ev.fired idx] }, none)
+    let o := coreStep B cfg mode c (toCore w.heap s) w.rng
+    (applyOut w s.cbits o, o.err)
 
 /-- the loop of `run`: `for _ in range(len(gates)): self.step(); if self._state is None: break` -/
 def runLoop {Q P : Type} [Mul P] (B : Backend Q P) (cfg : Cfg) (mode : Mode) (c : Circuit) :
@@ -337,7 +371,7 @@ def runLoop {Q P : Type} [Mul P] (B : Backend Q P) (cfg : Cfg) (mode : Mode) (c 
     | (w', none) =>
       match w'.sim with
       | none => (w', none)
-      | some s => if s.st.isNone then (w', none) else runLoop B cfg mode c n w'
+      | some s => if s.f.st.isNone then (w', none) else runLoop B cfg mode c n w'
 
 /-- `CircuitResult`: `final_states`, `probabilities`, and `cbits` (absent = `none`) -/
 structure Result (Q P : Type) where
@@ -362,12 +396,12 @@ def run {Q P : Type} [One P] [Mul P] (B : Backend Q P) (cfg : Cfg) (mode : Mode)
     | none => (w1, .error .attr)
     | some s0 =>
       -- `CircuitResult(self.state, self._probability, self.cbits)`: the `state` property is read
-      match getter cfg s0 with
-      | (s, some e) => ({ w1 with sim := some s }, .error e)
-      | (s, none) =>
-        ({ w1 with sim := some s },
-         .ok { states := [s.st], probs := [s.prob],
-               cbits := if cbitsTruthy w1.heap s.cbits then some [s.cbits] else none })
+      match getter cfg s0.f with
+      | (f, some e) => ({ w1 with sim := some { s0 with f := f } }, .error e)
+      | (f, none) =>
+        ({ w1 with sim := some { s0 with f := f } },
+         .ok { states := [f.st], probs := [f.prob],
+               cbits := if cbitsTruthy w1.heap s0.cbits then some [s0.cbits] else none })
 
 /-- `itertools.product("01", repeat=m)` in its order (first position varies slowest) -/
 def records : Nat → List (List Int)
